@@ -32,7 +32,7 @@ def seeded_table():
     need = (m.get('needs_to_manifest') or m.get('summary') or '').replace('\n', ' ').replace('|', '/')
     if len(need) > 230:
       need = need[:227] + '...'
-    caught = ' '.join(m.get('latest', {}).get('caught_by', [])) or '**missed**'
+    caught = ' '.join(m.get('latest', {}).get('caught_by', [])) or ('not judged (outside every quantifier, see 11.5)' if m.get('out_of_scope') else '**missed**')
     rows.append('| seeded/%s | %s | %s | %s |' % (os.path.basename(d), m.get('breaks_property'), need, caught))
   return '\n'.join(rows) + '\n'
 
